@@ -15,7 +15,7 @@ E1_NOTE = "Trusted: the harness's reference model and canonical key (DESIGN.md a
 NOT_APPLICABLE = {}
 
 ENGINES = [
-    {'name': 'seqx', 'path': 'engine/mc.h', 'serves_properties': ['C01', 'C02', 'C03', 'C04', 'C07', 'C08', 'C12', 'C13', 'C15', 'C19'], 'kind_free_text': 'explicit-state breadth-first closure search over the real library code; state = operation history replayed on fresh objects, deduplicated by a canonical serialisation of the real data structure; reference model + oracles on every transition'},
+    {'name': 'seqx', 'path': 'engine/mc.h', 'serves_properties': ['C01', 'C02', 'C03', 'C04', 'C07', 'C08', 'C12', 'C09', 'C13', 'C15', 'C19'], 'kind_free_text': 'explicit-state breadth-first closure search over the real library code; state = operation history replayed on fresh objects, deduplicated by a canonical serialisation of the real data structure; reference model + oracles on every transition'},
 ]
 
 PROPS = {
@@ -123,6 +123,15 @@ PROPS = {
         'technique': 'explicit-state BFS to closure on the real code with per-transition work accounting (hash-call log + dirty-bucket deltas)',
         'jobs': [{'world': 'hash', 'src': 'worlds/hash_world.c', 'lib': [], 'unity': True, 'flavours': BOTH}],
         'rule': 'breadth-first search to closure; a state is non-trivial when an incremental rehash is pending in it',
+        'assumptions': ASSUME_E1,
+    },
+    'C09': {
+        'level': 'model_checking',
+        'claim': 'Exhaustive within scope: closure over resize / reserve / shrink_to_fit / clear / sort / reverse / swap on two vectors of different element sizes (one with constructor/destructor), size arguments from small values, size+-1, cap, cap+1 and the SIZE_MAX / SIZE_MAX/es / 1 GiB boundary family; after every operation the data pointer must be the start of a live allocation of at least (capacity+1)*es bytes (128-bit arithmetic), element bytes must survive, at() must abort exactly for i >= size, unsatisfiable reserve must change nothing and unsatisfiable resize must abort, constructor/destructor calls are matched slot by slot.',
+        'note': E1_NOTE + ' "Cannot be satisfied" = (n+1)*es unrepresentable or above the 1 GiB line at which the allocation layer refuses deterministically.',
+        'technique': 'explicit-state BFS to closure on the real code vs reference model + allocation-layer block accounting',
+        'jobs': [{'world': 'vector', 'src': 'worlds/vector_world.c', 'lib': ['vector.c', 'array.c', 'memory.c'], 'flavours': RELDBG_ALWAYS}],
+        'rule': 'breadth-first search to closure; quick: 6 element-size pairs, thorough: every element size 1..64; a state is non-trivial when elements are held and some vector has slack capacity',
         'assumptions': ASSUME_E1,
     },
 }
